@@ -11,11 +11,24 @@
 #include <map>
 #include <count_min.hpp>
 #include "vtrace.hpp"
+#include "refhash.hpp"
 
 using namespace datasketches;
 using vt::Ev;
 
 struct Row { long x; long long est, lb, ub; };
+
+// REFERENCE 16-bit seed hash (published definition, common/include/MurmurHash3.h: low 16 bits of h1 of MurmurHash3_x64_128 of
+// the 8 seed bytes with seed 0), used only to MINE pairs of different seeds whose seed hashes collide: such sketches are
+// incompatible (different row hash functions) although every 16-bit summary of the seed agrees.
+static uint16_t ref_seed_hash(uint64_t seed) { return (uint16_t)(refhash::murmur3_x64_128(&seed, sizeof seed, 0).h1 & 0xffff); }
+static long colliding_seed(long seed) {
+  static std::map<long, long> cache;
+  auto it = cache.find(seed); if (it != cache.end()) return it->second;
+  uint16_t h = ref_seed_hash((uint64_t)seed);
+  for (long t = 1; t < 2000000000L; t++) if (t != seed && ref_seed_hash((uint64_t)t) == h) return cache[seed] = t;
+  return cache[seed] = seed + 1;
+}
 static std::string rows_json(const std::vector<Row>& r) {
   std::string s = "[";
   for (size_t k = 0; k < r.size(); k++) {
@@ -187,7 +200,13 @@ template<class W> struct Driver {
     for (auto& c : cdf) c /= z;
     Cfg A = draw_cfg(maxrows), B = A;
     if (seg % 7 == 3) { A.rows = 255; A.buckets = 3; B = A; }         // the widest row count the type allows
-    switch (g.below(4)) { case 0: B.seed = A.seed == 1 ? 2 : 1; break; case 1: B.rows = A.rows % 8 + 1; break; case 2: B.buckets = A.buckets + 1; break; default: B = draw_cfg(maxrows); }
+    switch (g.below(6)) {
+      case 0: B.seed = A.seed == 1 ? 2 : 1; break;
+      case 1: B.rows = A.rows % 8 + 1; break;
+      case 2: B.buckets = A.buckets + 1; break;
+      case 3: case 4: B.seed = colliding_seed(A.seed); break;     // same shape, different seed, equal 16-bit seed hash
+      default: B = draw_cfg(maxrows);
+    }
     mkpair(0, A); mkpair(1, A); mkpair(2, g.chance(60) ? B : A);
     for (long n = 0; n < events; n++) {
       int i = (int)g.below(NS);
@@ -251,6 +270,29 @@ template<class W> struct Driver {
     }
     Ev("Stat").i("rows", rows).i("buckets", buckets).i("S", S).i("m", m).i("total", N).i("thr", thr).il("over", over).emit();
   }
+  // exceedance statistics for few buckets and many rows (rows > 2 ln buckets), where only INDEPENDENT rows reach the
+  // configured confidence: S sketches with different seeds, each fed one or two heavy hitters (each above relative_error
+  // * total) and 100 light items; one random light item is queried per sketch (independent trials)
+  void hstat(long trial, int rows, long buckets) {
+    Ev("Begin").i("seg", 2000 + trial).str("wt", wname()).emit();
+    const long S = 20000, m = 1, NL = 100;
+    int nheavy = buckets >= 10 ? 2 : 1;
+    std::vector<std::pair<long, long>> st; std::map<long, long long> truth; long long L = 0;
+    for (long x = 1; x <= NL; x++) { long w = g.range(1, 3); st.emplace_back(x, w); truth[x] += w; L += w; }
+    // weight shares: 75 % (buckets <= 4: e/4 = 68 %), 60 % (buckets 5..9: e/5 = 54 %), 35 % + 35 % (buckets >= 10: e/10 = 27 %)
+    long long hw = nheavy == 2 ? (7 * L) / 6 : buckets <= 4 ? 3 * L : (3 * L) / 2;
+    for (int k = 0; k < nheavy; k++) { long x = NL + 1 + k; st.insert(st.begin() + (long)g.below(st.size()), std::make_pair(x, (long)hw)); truth[x] += hw; }
+    long long N = L + nheavy * hw;
+    std::vector<long long> over; long long thr = -1;
+    for (long s = 0; s < S; s++) {
+      Sk sketch((uint8_t)rows, (uint32_t)buckets, (uint64_t)(900007 * (trial + 1) + 15485863ULL * (uint64_t)s + g.below(1000)));
+      for (auto& u : st) upd(sketch, u.first, u.second, false);
+      thr = (long long)std::floor(sketch.get_relative_error() * (double)sketch.get_total_weight());
+      long x = g.range(1, NL);
+      over.push_back(query(sketch, x, false).est - truth[x]);
+    }
+    Ev("Stat").i("rows", rows).i("buckets", buckets).i("S", S).i("m", m).i("total", N).i("thr", thr).i("heavy", nheavy).il("over", over).emit();
+  }
 };
 
 int main(int argc, char** argv) {
@@ -261,6 +303,7 @@ int main(int argc, char** argv) {
   int maxrows = (int)vt::argl(argc, argv, "--maxrows", 8);
   int serde_pct = (int)vt::argl(argc, argv, "--serde", 3);
   long stats = vt::argl(argc, argv, "--stats", 2);
+  long hstats = vt::argl(argc, argv, "--hstats", 2);
   vt::open_out(vt::arg(argc, argv, "--out", "/dev/stdout"));
   vt::Rng g(seed);
   for (long seg = 0; seg < segments; seg++) {
@@ -271,6 +314,15 @@ int main(int argc, char** argv) {
   for (long t = 0; t < stats; t++) {
     Driver<uint64_t> d(g, serde_pct);
     d.stat(t + (long)seed * 10, (int)g.range(1, 5), BK[g.below(6)]);
+  }
+  // shapes with rows > 2 ln buckets (few buckets, many rows)
+  static const int SH[][2] = {{6, 6}, {8, 8}, {7, 6}, {8, 10}, {6, 7}, {7, 8}, {8, 6}, {8, 12}, {5, 6}, {7, 10}, {6, 8}, {8, 7}};
+  // bucket counts dividing 2^64: the regime where dependent rows (one hash combined linearly per row) are plainest
+  static const int P2[][2] = {{6, 4}, {8, 8}, {6, 8}, {7, 8}, {5, 4}, {8, 4}, {7, 4}, {5, 8}};
+  for (long t = 0; t < hstats; t++) {
+    Driver<uint64_t> d(g, serde_pct);
+    const int* sh = (t % 2 == 0) ? P2[(seed + (uint64_t)t / 2) % 8] : SH[(seed * 2 + (uint64_t)t) % 12];
+    d.hstat(t + (long)seed * 10, sh[0], sh[1]);
   }
   vt::close_out();
   fprintf(stderr, "cm_rec: %ld events\n", vt::g_events);
